@@ -62,8 +62,8 @@ def entry(name, harness, tus, entries, sizes, opts=OPTS, quick_opts=("Os",), rea
                         cdefs=list(cdefs), expect_refused=expect_refused, control=control))
 
 
-def S(tag, unwind, tier="quick", unwindset=(), **defs):
-    return dict(tag=tag, defs=defs, unwind=unwind, unwindset=list(unwindset), tier=tier)
+def S(tag, unwind, tier="quick", unwindset=(), memn=None, **defs):
+    return dict(tag=tag, defs=defs, unwind=unwind, unwindset=list(unwindset), tier=tier, memn=memn)
 
 
 W = os.path.join(HARN, "C08_wrap_inner.c")
@@ -141,10 +141,90 @@ entry("rsa_ssl_decrypt", "C08_rsa.c", ["src/rsa/rsa_ssl_decrypt.c"], ["br_rsa_ss
       [S("L64", 70, FN=1, LEN=64), S("L128", 140, FN=1, LEN=128, tier="thorough")], quick_opts=OPTS,
       desc="br_rsa_ssl_decrypt (padding check; modular exponentiation core = stand-in)",
       secret="the decrypted block, the core's status bit", public="modulus length, addresses")
+entry("rsa_oaep_unpad_md5", "C08_rsa.c", ["src/rsa/rsa_oaep_unpad.c", "src/hash/mgf1.c"] + MD5, ["br_rsa_oaep_unpad", "br_md5_vtable"],
+      [S("k36", 70, unwindset=["ir_memmove_.0:38", "ir_memmove_.1:38"], FN=2, LEN=36, OH=2)],
+      desc="br_rsa_oaep_unpad + br_mgf1_xor + br_md5 (all IR)",
+      secret="the encoded message (seed, DB)", public="k, label, addresses; validity and message length declassified (documented)")
 entry("rsa_oaep_unpad", "C08_rsa.c", ["src/rsa/rsa_oaep_unpad.c", "src/hash/mgf1.c"] + SHA1, ["br_rsa_oaep_unpad", "br_sha1_vtable"],
-      [S("k50", 70, FN=2, LEN=50), S("k64", 80, FN=2, LEN=64, tier="thorough")],
+      [S("k44", 70, unwindset=["ir_memmove_.0:46", "ir_memmove_.1:46"], FN=2, LEN=44, tier="thorough"),
+       S("k50", 70, unwindset=["ir_memmove_.0:52", "ir_memmove_.1:52"], FN=2, LEN=50, tier="thorough"),
+       S("k64", 80, unwindset=["ir_memmove_.0:66", "ir_memmove_.1:66"], FN=2, LEN=64, tier="thorough")],
       desc="br_rsa_oaep_unpad + br_mgf1_xor + br_sha1 (all IR)",
       secret="the encoded message (seed, DB)", public="k, label, addresses; validity and message length declassified (documented)")
+
+# (f) symmetric primitives
+SC = "src/symcipher/"
+AESCT = [SC + "aes_ct.c", SC + "aes_common.c", SC + "aes_ct_enc.c", SC + "aes_ct_dec.c", SC + "aes_ct_cbcenc.c", SC + "aes_ct_cbcdec.c", SC + "aes_ct_ctr.c",
+         "src/codec/enc32le.c", "src/codec/dec32le.c", "src/codec/enc32be.c", "src/codec/dec32be.c"]
+AESCT64 = [SC + "aes_ct64.c", SC + "aes_ct64_enc.c", SC + "aes_ct64_dec.c", SC + "aes_ct64_cbcenc.c", SC + "aes_ct64_cbcdec.c",
+           "src/codec/enc32le.c", "src/codec/dec32le.c"]
+DESCT = [SC + "des_ct.c", SC + "des_ct_cbcenc.c", SC + "des_ct_cbcdec.c", SC + "des_support.c", "src/codec/enc32be.c", "src/codec/dec32be.c"]
+SYMSEC = "key, IV, data"
+SYMPUB = "key length, data length, addresses"
+entry("aes_ct_cbcenc", "C08_sym.c", AESCT, ["br_aes_ct_cbcenc_init", "br_aes_ct_cbcenc_run"],
+      [S("k16-n32", 70, FN=1, KL=16, NB=32), S("k32-n32", 70, FN=1, KL=32, NB=32, tier="thorough")],
+      desc="aes_ct key schedule + bitsliced encryption (br_aes_ct_cbcenc_init/run)", secret=SYMSEC, public=SYMPUB)
+entry("aes_ct_cbcdec", "C08_sym.c", AESCT, ["br_aes_ct_cbcdec_init", "br_aes_ct_cbcdec_run"],
+      [S("k16-n32", 70, FN=2, KL=16, NB=32), S("k24-n48", 70, FN=2, KL=24, NB=48, tier="thorough")],
+      desc="aes_ct key schedule + bitsliced decryption (br_aes_ct_cbcdec_init/run)", secret=SYMSEC, public=SYMPUB)
+entry("aes_ct_ctr", "C08_sym.c", AESCT, ["br_aes_ct_ctr_init", "br_aes_ct_ctr_run"],
+      [S("k16-n37", 70, FN=13, KL=16, NB=37)],
+      desc="aes_ct CTR (br_aes_ct_ctr_init/run)", secret=SYMSEC + ", counter", public=SYMPUB)
+entry("aes_ct64_cbcenc", "C08_sym.c", AESCT64, ["br_aes_ct64_cbcenc_init", "br_aes_ct64_cbcenc_run"],
+      [S("k16-n16", 70, FN=3, KL=16, NB=16), S("k32-n32", 70, FN=3, KL=32, NB=32, tier="thorough")],
+      desc="aes_ct64 key schedule + bitsliced encryption (br_aes_ct64_cbcenc_init/run)", secret=SYMSEC, public=SYMPUB)
+entry("aes_ct64_cbcdec", "C08_sym.c", AESCT64, ["br_aes_ct64_cbcdec_init", "br_aes_ct64_cbcdec_run"],
+      [S("k16-n64", 80, FN=4, KL=16, NB=64)],
+      desc="aes_ct64 key schedule + bitsliced decryption (br_aes_ct64_cbcdec_init/run)", secret=SYMSEC, public=SYMPUB)
+entry("des_ct_cbcenc", "C08_sym.c", DESCT, ["br_des_ct_cbcenc_init", "br_des_ct_cbcenc_run"],
+      [S("k8-n8", 100, FN=5, KL=8, NB=8), S("k24-n16", 100, FN=5, KL=24, NB=16)],
+      desc="des_ct key schedule + bitsliced DES/3DES encryption (br_des_ct_cbcenc_init/run)", secret=SYMSEC, public=SYMPUB)
+entry("des_ct_cbcdec", "C08_sym.c", DESCT, ["br_des_ct_cbcdec_init", "br_des_ct_cbcdec_run"],
+      [S("k24-n8", 100, FN=6, KL=24, NB=8)],
+      desc="des_ct key schedule + 3DES decryption (br_des_ct_cbcdec_init/run)", secret=SYMSEC, public=SYMPUB)
+CHA = [SC + "chacha20_ct.c", "src/codec/enc32le.c", "src/codec/dec32le.c"]
+entry("chacha20_ct", "C08_sym.c", CHA, ["br_chacha20_ct_run"],
+      [S("n1", 70, FN=7, NB=1), S("n70", 80, FN=7, NB=70), S("n200", 210, FN=7, NB=200, tier="thorough")], quick_opts=OPTS,
+      desc="br_chacha20_ct_run", secret="key, IV, counter, data", public="data length, addresses")
+for (fn, nm) in ((8, "ctmul"), (9, "ctmul32")):
+    entry("poly1305_" + nm, "C08_sym.c", CHA + [SC + "poly1305_%s.c" % nm, "src/codec/enc64le.c", "src/codec/dec64le.c"], ["br_poly1305_%s_run" % nm, "br_chacha20_ct_run"],
+          [S("n16-a5-enc", 80, FN=fn, NB=16, AL=5, ENC=1), S("n35-a13-dec", 80, FN=fn, NB=35, AL=13, ENC=0)],
+          desc="br_poly1305_%s_run with br_chacha20_ct_run (all IR)" % nm, secret="key, IV, data, AAD contents", public="lengths, direction, addresses")
+for (fn, nm) in ((10, "ctmul"), (11, "ctmul32"), (12, "ctmul64")):
+    entry("ghash_" + nm, "C08_sym.c", ["src/hash/ghash_%s.c" % nm, "src/codec/enc32be.c", "src/codec/dec32be.c", "src/codec/enc64be.c", "src/codec/dec64be.c"], ["br_ghash_" + nm],
+          [S("n16", 40, FN=fn, NB=16), S("n37", 60, FN=fn, NB=37)], quick_opts=OPTS,
+          desc="br_ghash_" + nm, secret="y, h, data", public="data length, addresses")
+AEC = ["src/codec/enc32le.c", "src/codec/dec32le.c", "src/codec/enc32be.c", "src/codec/dec32be.c", "src/codec/enc64be.c", "src/codec/dec64be.c", "src/codec/ccopy.c"]
+AEADSEC = "key, nonce, AAD contents, ciphertext, received tag (validity of the tag)"
+entry("gcm_check_tag", "C08_aead.c", ["src/aead/gcm.c", "src/hash/ghash_ctmul32.c", SC + "aes_ct.c", SC + "aes_ct_enc.c", SC + "aes_ct_ctr.c"] + AEC,
+      ["br_aes_ct_ctr_init", "br_gcm_init", "br_gcm_reset", "br_gcm_aad_inject", "br_gcm_flip", "br_gcm_run", "br_gcm_check_tag_trunc", "br_ghash_ctmul32"],
+      [S("n20-a7-t16", 70, MODE=1, NB=20, AL=7, TL=16), S("n37-a20-t12", 70, MODE=1, NB=37, AL=20, TL=12, tier="thorough")],
+      desc="GCM decryption sequence up to br_gcm_check_tag_trunc over aes_ct CTR + ghash_ctmul32 (all IR)", secret=AEADSEC, public="all lengths, addresses")
+entry("ccm_check_tag", "C08_aead.c", ["src/aead/ccm.c", SC + "aes_ct.c", SC + "aes_ct_enc.c", SC + "aes_ct_ctrcbc.c"] + AEC,
+      ["br_aes_ct_ctrcbc_init", "br_ccm_init", "br_ccm_reset", "br_ccm_aad_inject", "br_ccm_flip", "br_ccm_run", "br_ccm_check_tag"],
+      [S("n20-a7-t16", 70, MODE=2, NB=20, AL=7, TL=16), S("n33-a20-t8", 70, MODE=2, NB=33, AL=20, TL=8, tier="thorough")],
+      desc="CCM decryption sequence up to br_ccm_check_tag over aes_ct CTR+CBC-MAC (all IR)", secret=AEADSEC, public="all lengths, addresses")
+entry("eax_check_tag", "C08_aead.c", ["src/aead/eax.c", SC + "aes_ct.c", SC + "aes_ct_enc.c", SC + "aes_ct_ctrcbc.c"] + AEC,
+      ["br_aes_ct_ctrcbc_init", "br_eax_init", "br_eax_reset", "br_eax_aad_inject", "br_eax_flip", "br_eax_run", "br_eax_check_tag_trunc"],
+      [S("n5-a3-t16", 70, MODE=3, NB=5, AL=3, TL=16), S("n20-a7-t16", 70, MODE=3, NB=20, AL=7, TL=16, tier="thorough")],
+      desc="EAX decryption sequence up to br_eax_check_tag_trunc over aes_ct CTR+CBC-MAC (all IR)", secret=AEADSEC, public="all lengths, addresses")
+# (g) EC point multiplication (thorough tier only: ~10^6 IR instructions per run)
+ECC = ["src/codec/ccopy.c", "src/codec/enc32be.c", "src/codec/dec32be.c"]
+entry("ec_p256_m15_mul", "C08_ec.c", ["src/ec/ec_p256_m15.c", "src/ec/ec_secp256r1.c"] + ECC, ["api_mul"],
+      [S("x1", 300, IMPL=1, XLEN=1, tier="thorough")], opts=("Os",), timeout=900,
+      desc="ec_p256_m15 api_mul (decode, multiply, to affine, encode), 1-byte scalar", secret="scalar, point coordinates", public="lengths, curve, addresses")
+entry("ec_c25519_m15_mul", "C08_ec.c", ["src/ec/ec_c25519_m15.c"] + ECC, ["api_mul"],
+      [S("x1", 300, IMPL=3, XLEN=1, tier="thorough")], opts=("Os",), timeout=900,
+      desc="ec_c25519_m15 api_mul (X25519 ladder), 1-byte scalar", secret="scalar, u coordinate", public="lengths, curve, addresses")
+entry("ec_prime_i15_mul", "C08_ec.c", ["src/ec/ec_prime_i15.c", "src/ec/ec_secp256r1.c", "src/ec/ec_secp384r1.c", "src/ec/ec_secp521r1.c"] + _int_tus(15) + ["src/codec/enc32be.c", "src/codec/dec32be.c"], ["api_mul"],
+      [S("x1", 300, IMPL=2, XLEN=1, tier="thorough")], opts=("Os",), timeout=900,
+      desc="ec_prime_i15 api_mul on P-256, 1-byte scalar", secret="scalar, point coordinates", public="lengths, curve, addresses")
+# negative controls (reported through extra_checks; they must FAIL)
+entry("aes_big_cbcenc", "C08_sym.c", [SC + "aes_big_enc.c", SC + "aes_big_cbcenc.c", SC + "aes_common.c", "src/codec/enc32be.c", "src/codec/dec32be.c"],
+      ["br_aes_big_cbcenc_init", "br_aes_big_cbcenc_run"], [S("k16-n16", 70, FN=20, KL=16, NB=16)], control=True,
+      desc="NEGATIVE CONTROL aes_big encryption (S-box/T-table look-ups indexed by secret bytes)", secret=SYMSEC, public=SYMPUB)
+entry("memcmp_tag", "C08_sym.c", [W], ["c08w_tagcmp"], [S("n16", 40, FN=22)], control=True,
+      desc="NEGATIVE CONTROL memcmp-style early-exit tag comparison", secret="both buffers", public="length")
 
 # ---------------------------------------------------------------------------
 # generation + translation validation
@@ -393,9 +473,13 @@ def mkq(e, opt, sz, tv):
     divn = tv["div_max"] + 8
     write_logh(logh, logn, divn)
     tier = q_tier(e, opt, sz)
-    memn = max(300, sz["unwind"])
-    uw = ["c08_cmploop.0:%d" % (logn + 2), "c08_cmpdiv.0:%d" % (divn + 2), "ir_memcpy_.0:%d" % memn, "ir_memset_.0:%d" % memn,
-          "ir_memmove_.0:%d" % memn, "ir_memmove_.1:%d" % memn] + sz["unwindset"]
+    memn = sz["memn"] or max(300, sz["unwind"])
+    uwd = {"c08_cmploop.0": logn + 2, "c08_cmpdiv.0": divn + 2, "ir_memcpy_.0": memn, "ir_memset_.0": memn,
+           "ir_memmove_.0": memn, "ir_memmove_.1": memn}
+    for x in sz["unwindset"]:
+        k, _, v = x.rpartition(":")
+        uwd[k] = int(v)
+    uw = ["%s:%d" % kv for kv in uwd.items()]
     return Q(qname(e, opt, sz), e["harness"],
              defs=["-I" + GEN, "-DC08_GEN=\"%s_%s.c\"" % (e["name"], opt), "-DC08_LOGN=%d" % logn, "-DC08_DIVN=%d" % divn, "-DC08_LOGH=\"%s\"" % logh, "-DVLOG_MAX=20000"] + e["cdefs"] + size_defs(sz),
              unwind=sz["unwind"], unwindset=uw, fsarray=e["fsarray"], backend=e["backend"], timeout=e["timeout"] if tier == "quick" else 900,
